@@ -65,13 +65,17 @@ Expected == CASE pc = "endwarm" -> "end_warmup"
 
 KernelKinds == {"end_warmup", "start_epoch", "transition", "end_epoch", "tune"}
 
+\* lenient mode (Hdr.lenient): the per-call observations are not checked, the trace is only
+\* used to drive the spec to the "results" event (lets a check look at what was stored even
+\* if a conjunct owned by another property fails earlier in the same trace)
+ChkL(name, cond) == Chk(name, Hdr.lenient \/ cond)
 EpochArgs ==
-  Chk("epoch_arguments",
+  ChkL("epoch_arguments",
       /\ Ev.idx = epoch.idx /\ Ev.type = epoch.type
       /\ Ev.time = epoch.time /\ Ev.tie = epoch.tie)
 
 FreshKey ==
-  /\ Chk("fresh_random_key_for_every_call", Ev.key \notin usedKeys)
+  /\ ChkL("fresh_random_key_for_every_call", Ev.key \notin usedKeys)
   /\ usedKeys' = usedKeys \cup {Ev.key}
 
 TInitState ==
@@ -90,22 +94,22 @@ TCall ==
        [] Ev.ev = "end_epoch" -> EpochArgs /\ KEnd(Ev.k)
        [] Ev.ev = "transition" ->
             /\ EpochArgs
-            /\ Chk("adaptive_transition_iff_adaptation_epoch", Ev.adaptive = IsAdapt(epoch.type))
-            /\ Chk("starts_from_state_left_by_predecessor",
+            /\ ChkL("adaptive_transition_iff_adaptation_epoch", Ev.adaptive = IsAdapt(epoch.type))
+            /\ ChkL("starts_from_state_left_by_predecessor",
                    \A i \in Kernels : Ev.seen[i] = mstate[i])
-            /\ Chk("blocks_only_written_by_their_own_kernel", Ev.blocks_ok)
-            /\ Chk("probe_wrote_expected_tag",
+            /\ ChkL("blocks_only_written_by_their_own_kernel", Ev.blocks_ok)
+            /\ ChkL("probe_wrote_expected_tag",
                    Ev.wrote = <<epoch.idx, epoch.tie + 1, Ev.k>>)
             /\ Transition(Ev.k)
        [] Ev.ev = "tune" ->
             /\ EpochArgs
             /\ Chk("tune_only_after_adaptation_epoch", IsAdapt(epoch.type))
-            /\ Chk("slow_tuning_iff_slow_epoch", Ev.slow = (epoch.type = SLOW))
+            /\ ChkL("slow_tuning_iff_slow_epoch", Ev.slow = (epoch.type = SLOW))
             /\ IF NeedsHist = {}
-               THEN Chk("no_history_unless_asked", Ev.hl = -1)
+               THEN ChkL("no_history_unless_asked", Ev.hl = -1)
                ELSE LET h == History IN
-                    /\ Chk("history_is_this_epochs_stored_chain_length", Ev.hl = Len(h))
-                    /\ Chk("history_is_this_epochs_stored_chain_content",
+                    /\ ChkL("history_is_this_epochs_stored_chain_length", Ev.hl = Len(h))
+                    /\ ChkL("history_is_this_epochs_stored_chain_content",
                            Len(h) = 0 \/ (/\ Ev.hfirst = h[1][Ev.k]
                                           /\ Ev.hlast = h[Len(h)][Ev.k]))
             /\ Tune(Ev.k)
